@@ -40,15 +40,25 @@ def answer(case, cfg):
 def pairs(ctx, n):
     rng = ctx.rng
     for _ in range(n):
-        case = core.gen_election(rng, btypes=("app", "app", "app", "card", "cum", "ord"), m_lo=1, m_hi=6)
+        r = rng.random()
+        if r < 0.45:
+            case = core.gen_election(rng, btypes=("app", "app", "app", "card", "cum", "ord"), m_lo=1, m_hi=6)
+        elif r < 0.85:
+            # tie-rich: equal costs and duplicated ballots, where enumeration order could matter
+            from .C08 import tie_rich_election
+            case = tie_rich_election(rng)
+        else:
+            case = core.gen_big_election(rng, btypes=("app", "app", "card"))
         cfg = rulegen.gen_rule_cfg(rng, case, allow_refuse=False)
+        if r >= 0.45 and r < 0.85 and rng.random() < 0.7:
+            cfg["tie"] = rng.choice(["min_cost", "max_cost"] + (["app_score"] if case.btype == "app" else []))
         cfg["res"] = True if cfg["rule"] == "maxw" or len(case.projects) > 5 else cfg["res"]
         yield case, cfg
 
 
 def run(ctx, n=None, compare=True, hashseeds=None):
     ctx.rule = RULE
-    n = n or ctx.scale(500, 3000)
+    n = n or ctx.scale(1500, 8000)
     rng = ctx.rng
     batch = []  # for the hash-seed workers
     base_answers = []
